@@ -5,6 +5,7 @@ import (
 	"encoding/json"
 	"errors"
 	"fmt"
+	"strings"
 	"testing"
 
 	"github.com/CrowdStrike/csproto"
@@ -123,6 +124,7 @@ var xxx_messageInfo_LegacyMsg golang.InternalMessageInfo
 type NestedSpec struct {
 	Flavour string   `json:"flavour"` // marshalto | marshalonly | gogo | legacy | gv2-timestamp | gv2-duration | gv2-struct | gv2-string | gv2-bytes | gv2-descriptor | gv2-nil
 	Payload []byte   `json:"payload,omitempty"`
+	PayLen  int      `json:"payload_len,omitempty"` // stubs: a synthetic payload of this length (instead of Payload)
 	I       int64    `json:"i,omitempty"`
 	J       int32    `json:"j,omitempty"`
 	S       string   `json:"s,omitempty"`
@@ -133,6 +135,9 @@ type NestedSpec struct {
 }
 
 func (n *NestedSpec) build() (msg any, fresh func() any) {
+	if n.PayLen > 0 {
+		n = &NestedSpec{Flavour: n.Flavour, Payload: bytes.Repeat([]byte{0x08, 0x01}, n.PayLen/2+1)[:n.PayLen], FailM: n.FailM, FailU: n.FailU}
+	}
 	switch n.Flavour {
 	case "marshalto":
 		return &fmStub{Payload: n.Payload, FailM: n.FailM}, func() any { return &fmStub{FailU: n.FailU} }
@@ -465,6 +470,10 @@ func genNested(t *rapid.T, n *NestedSpec, flavour string, mayFail bool) {
 				n.Payload = []byte{0x08, 0x01}
 			}
 		}
+		if !n.Empty && rapid.IntRange(0, 5).Draw(t, "big") == 0 {
+			// a nested size at a length-prefix limit (the stubs carry their payload verbatim)
+			n.Payload = bytes.Repeat([]byte{0x08, 0x01}, 8193)[:rapid.SampledFrom([]int{126, 127, 128, 129, 16382, 16383, 16384, 16385, 16386}).Draw(t, "bigsize")]
+		}
 		if mayFail {
 			switch rapid.IntRange(0, 9).Draw(t, "fail") {
 			case 0:
@@ -475,10 +484,16 @@ func genNested(t *rapid.T, n *NestedSpec, flavour string, mayFail bool) {
 		}
 	default:
 		n.Payload = wiregen.Bytes(false).Draw(t, "b")
+		if !n.Empty && rapid.IntRange(0, 5).Draw(t, "big") == 0 {
+			// runtime-only flavours: a string / bytes value that puts the nested size around a length-prefix limit
+			l := rapid.SampledFrom([]int{120, 123, 124, 125, 126, 127, 128, 16376, 16378, 16379, 16380, 16381, 16382, 16383, 16384}).Draw(t, "biglen")
+			n.S = strings.Repeat("s", l)
+			n.Payload = bytes.Repeat([]byte{0xab}, l)
+		}
 	}
 }
 
-const ruleC19 = "case = nested message of one of the flavours {MarshalTo stub, Marshal-only stub, plain gogo (descriptor.DescriptorProto), plain pre-APIv2 Google v1 struct with XXX_ methods, plain Google v2 incl. well-known types and typed nil, proto2 message with required fields known only to Google v2 / gogo (unset => its runtime refuses to marshal it and to unmarshal the empty payload)} x value (incl. empty) x decode target {fresh, already holding another value of the flavour} x 0..3 scalar fields before and after x field number up to 2^29-1 x failing nested marshaler/unmarshaler x declared length inflated beyond the buffer; " +
+const ruleC19 = "case = nested message of one of the flavours {MarshalTo stub, Marshal-only stub, plain gogo (descriptor.DescriptorProto), plain pre-APIv2 Google v1 struct with XXX_ methods, plain Google v2 incl. well-known types and typed nil, proto2 message with required fields known only to Google v2 / gogo (unset => its runtime refuses to marshal it and to unmarshal the empty payload)} x value (incl. empty; nested sizes at the 1-, 2- and 3-byte length-prefix limits, deterministic sweep for the stubs) x decode target {fresh, already holding another value of the flavour} x 0..3 scalar fields before and after x field number up to 2^29-1 x failing nested marshaler/unmarshaler x declared length inflated beyond the buffer; " +
 	"oracle: exactly-sized sentinel-backed buffer == prefix|key|varint(len M)|M|suffix with M=csproto.Marshal(m); DecodeNested advances by exactly prefix+len, message equal, suffix decodes, nested errors propagate (errors.Is), inflated length is rejected with 0 calls of the nested decoder; " +
 	"non-trivial = non-empty nested message in a flavour other than MarshalTo, or a failing stub, or an inflated length; distinct by case content"
 
@@ -486,6 +501,24 @@ func TestC19(t *testing.T) {
 	rec := ev.New("C19", ruleC19)
 	defer rec.Write()
 	defer func() { t.Log(rec.Summary()) }()
+	// deterministic sweep: nested sizes at every length-prefix limit x key sizes x the two stub flavours
+	shard, shards := ev.Shard()
+	idx := 0
+	for _, fl := range []string{"marshalto", "marshalonly"} {
+		for _, size := range []int{0, 1, 127, 128, 129, 16383, 16384, 16385, 2097151, 2097152, 2097153} {
+			for _, num := range []int{1, 15, 16, 2047, 2048, 1<<29 - 1} {
+				idx++
+				if idx%shards != shard {
+					continue
+				}
+				c := &NCase{Num: num, Before: []uint64{7}, After: []uint64{9}, Nested: NestedSpec{Flavour: fl, PayLen: size, Payload: []byte{}, Empty: size == 0}}
+				rec.Eval(1)
+				rec.Class("sweep/" + fl)
+				rec.NonTrivialEnum(1)
+				rec.Check(t, "ncase", c, oracleC19(c))
+			}
+		}
+	}
 	ev.Rapid(t, ev.N(24000, 800000), 19, func(rt *rapid.T) {
 		c := genNCase(rt)
 		rec.Eval(1)
